@@ -23,7 +23,7 @@ FAM['P1'] = Schema('P1', [Opt('ptr', 'p', '', None, 'pf'), Opt('ptr', 'pl', 'L',
                           Opt('sec', 'm', 'MT', sub=[Opt('ptr', 'q', 'L', None, 'pf'), Opt('str', 's', '', b'd')]),
                           Opt('func', 'fn', '', None, 'u')])
 FAM['I1'] = Schema('I1', [Opt('func', 'include', '', None, 'i'), Opt('int', 'i', '', 5), Opt('str', 's', '', b'q'),
-                          Opt('sec', 'sec', '', sub=[Opt('int', 'x', '', 1), Opt('func', 'include', '', None, 'i')]), Opt('sec', 'm', 'M', sub=[Opt('int', 'x', '', 1), Opt('func', 'include', '', None, 'i')])])
+                          Opt('sec', 'sec', '', sub=[Opt('int', 'x', '', 1), Opt('func', 'include', '', None, 'i')]), Opt('sec', 'm', 'M', sub=[Opt('int', 'x', '', 1), Opt('func', 'include', '', None, 'i'), Opt('int', 'ml', 'L', [b'1', b'2'])])])
 USE = ['P1', 'F13', 'F17', 'F07', 'F08', 'F09', 'F10', 'F12', 'F15', 'F16', 'F18', 'F05']
 BATCH = 300
 HYG = re.compile(r'hyg lex=(\d+),(\d+),(\d+),(\d+) lib=(\d+) scan=(\d+) files=(\d+) fds=(-?\d+) ptr=(-?\d+),(\d+) foreign=(\d+) dclose=(\d+)')
